@@ -135,3 +135,13 @@ Theorem c39_checker_sound : forall src dst last_ok digests_ok,
   c39_code src dst last_ok digests_ok = 1 <-> C39Spec src dst last_ok digests_ok.
 Proof. exact c39_code_iff. Qed.
 Print Assumptions c39_checker_sound.
+
+(* the model's own round trip passes the checker for every well-formed state and all group
+   sizes (parquet), or fails it exactly in the known class (JSON, code 3) *)
+Theorem c39_model_passes : forall ge gi latest da d,
+  wf_sdb latest da d ->
+  (exists dst, regenesis 1 ge gi latest da d = Some dst /\ c39_code d dst true true = 1) /\
+  (exists dst, regenesis 0 ge gi latest da d = Some dst /\
+     (c39_code d dst true true = 1 \/ c39_code d dst true true = 3)).
+Proof. exact c39_model_passes_all. Qed.
+Print Assumptions c39_model_passes.
